@@ -113,10 +113,21 @@ class CMS:
         # the outer contentType OID and the length octets of the two wrappers are framing, not one of the protected components
         if ci[0].tag != 6 or ci[1].tag != 0xa0:
             raise DerError("not a ContentInfo")
-        sd = read_tlv(blob, ci[1].start, ci[1].end, lenient=True)
+        # the [0] EXPLICIT wrapper and the SignedData SEQUENCE are walked, not measured: their length octets are framing
+        sd = read_tlv(blob, ci[1].start, top.end, lenient=True)
         if sd.tag != 0x30:
             raise DerError("SignedData is not a SEQUENCE")
-        k = sd.children()
+        k = []
+        pos = sd.start
+        while pos < top.end:
+            try:
+                n = read_tlv(blob, pos, top.end)
+            except DerError:
+                break
+            k.append(n)
+            pos = n.end
+            if n.tag == 0x31 and len(k) >= 4:
+                break           # signerInfos is the last field
         if len(k) < 4 or k[0].tag != 2 or k[1].tag != 0x31 or k[2].tag != 0x30:
             raise DerError("SignedData fields")
         self.version, self.digest_algs, self.encap = k[0], k[1], k[2]
